@@ -8,6 +8,8 @@ mod wire;
 mod gen;
 mod gen_sigma;
 mod gen_enc;
+mod gen_range;
+mod range;
 mod enc;
 mod sigma;
 
@@ -21,6 +23,9 @@ pub fn exec(op: &str, args: &[&str]) -> String {
         "new" => sigma::op_new(args),
         "prove" => sigma::op_prove(args),
         "mprove" => sigma::op_mprove(args),
+        "rnew" => range::op_rnew(args),
+        "rprove" => range::op_rprove(args),
+        "rmprove" => "emit:".to_string(),
         "decode" => enc::op_decode(args),
         "extract" => enc::op_extract(args),
         "fromstr" => enc::op_fromstr(args),
